@@ -888,6 +888,50 @@ Definition keys_ok (C : cfg) (keys : list string) : bool :=
   nodupb keys &&
   forallb (fun k => String.eqb (py_field_name C k) k || negb (mem (py_field_name C k) keys)) keys.
 
+(* ---- repeated response keys: allowed for leaf selections of one field (no merge needed) ---- *)
+Definition count_key (k : string) (keys : list string) : nat := List.length (filter (String.eqb k) keys).
+
+Definition is_leaf_sel (f : fnode) : bool := match fn_sub f with None => true | Some _ => false end.
+
+Definition dup_ok (fns : list fnode) : bool :=
+  forallb (fun f => Nat.eqb (count_key (field_key f) (map field_key fns)) 1 ||
+                    (is_leaf_sel f &&
+                     forallb (fun g => negb (String.eqb (field_key g) (field_key f)) ||
+                                       String.eqb (fn_name g) (fn_name f)) fns)) fns.
+
+Definition keys_okD (C : cfg) (fns : list fnode) : bool :=
+  dup_ok fns &&
+  forallb (fun k => String.eqb (py_field_name C k) k || negb (mem (py_field_name C k) (map field_key fns)))
+          (map field_key fns).
+
+Lemma count_nodup k l : NoDup l -> In k l -> count_key k l = 1.
+Proof.
+  unfold count_key. induction l as [|x l IH]; intros Hnd Hin; [contradiction|].
+  inversion Hnd; subst. simpl. destruct Hin as [E | Hin].
+  - subst x. rewrite String.eqb_refl. simpl. f_equal.
+    assert (G : forall m, ~ In k m -> filter (String.eqb k) m = []).
+    { induction m as [|y m IHm]; simpl; intro Hn; [reflexivity|].
+      rewrite eqb_neq_false; [apply IHm | ]; intuition. }
+    rewrite G; auto.
+  - rewrite eqb_neq_false; [apply IH; auto|]. intro E. subst x. contradiction.
+Qed.
+
+Lemma keys_ok_D C fns : keys_ok C (map field_key fns) = true -> keys_okD C fns = true.
+Proof.
+  unfold keys_ok, keys_okD. intro H. apply andb_true_iff in H as [H1 H2]. rewrite H2, andb_true_r.
+  apply nodupb_NoDup in H1. apply forallb_forall. intros f Hf.
+  rewrite (count_nodup _ _ H1 (in_map field_key _ _ Hf)). reflexivity.
+Qed.
+
+(* the key guard of a selection set: pairwise distinct keys where Python names must be distinct too
+   (cov: preservation, strictness, abstract positions); for acceptance alone a key may repeat among leaf
+   selections of one field (the class body's last definition wins, all of them carry the same annotation) *)
+Definition keys_okG (cov : bool) (C : cfg) (fns : list fnode) : bool :=
+  if cov then keys_ok C (map field_key fns) else keys_okD C fns.
+
+Lemma keys_okG_D cov C fns : keys_okG cov C fns = true -> keys_okD C fns = true.
+Proof. destruct cov; simpl; [apply keys_ok_D | auto]. Qed.
+
 Fixpoint gtype_eqb (a b : gtype) : bool :=
   match a, b with
   | TNamed x, TNamed y => String.eqb x y
@@ -963,9 +1007,11 @@ Definition abs_ok (rec : bool -> string -> string -> list sel -> bool) (g : nat)
 (* rt: the runtime object type of the response object; r: the type the class is generated for
    (r = rt except for the base variant of an interface); abs: the class is a variant at an abstract
    position (add_typename), where the __typename Literal ignores @skip/@include *)
+(* mx: the @mixin names allowed on fields (extra base classes of the field's classes); the theorems demand
+   that none of them is the name of a class of the table, so that they contribute no pydantic field *)
 Definition field_ok (rec : bool -> string -> string -> list sel -> bool) (g : nat) (cov : bool) (S : schema)
-           (abs : bool) (rt r : string) (f : fnode) : bool :=
-  (match fn_mixins f with [] => true | _ => false end) &&
+           (mx : list string) (abs : bool) (rt r : string) (f : fnode) : bool :=
+  forallb (fun b => mem b mx) (fn_mixins f) &&
   if String.eqb (fn_name f) "__typename" then
     (match fn_sub f with None => true | Some _ => false end) && negb (abs && fn_cond f) &&
     (match schema_field_type S r "__typename" with
@@ -987,19 +1033,36 @@ Definition field_ok (rec : bool -> string -> string -> list sel -> bool) (g : na
 
 (* [cov]: additionally require pairwise distinct Python field names (needed for preservation, and for
    abstract positions) *)
-Fixpoint sels_ok (fuel : nat) (cov : bool) (C : cfg) (S : schema) (frs : list fragdef) (abs : bool)
-         (rt r : string) (sels : list sel) : bool :=
+Fixpoint sels_ok (fuel : nat) (cov : bool) (C : cfg) (S : schema) (frs : list fragdef) (mx : list string)
+         (abs : bool) (rt r : string) (sels : list sel) : bool :=
   match fuel with
   | O => false
   | Datatypes.S g =>
       match flatten g S frs rt r sels with
       | Some fns =>
-          keys_ok C (map field_key fns) &&
+          keys_okG cov C fns &&
           (negb cov || nodupb (map (fun f => py_field_name C (field_key f)) fns)) &&
-          forallb (field_ok (sels_ok g cov C S frs) g cov S abs rt r) fns
+          forallb (field_ok (sels_ok g cov C S frs mx) g cov S mx abs rt r) fns
       | None => false
       end
   end.
+
+(* extra bases (@mixin) that contribute no pydantic field: BaseModel or a name outside the class table *)
+Definition harmless (cs : list pclass) (eb : list string) : Prop :=
+  forall b, In b eb -> b = "BaseModel" \/ lookup_class cs b = None.
+
+Definition mx_ok (cs : list pclass) (mx : list string) : bool :=
+  forallb (fun b => String.eqb b "BaseModel" || negb (mem b (map c_name cs))) mx.
+
+Lemma mx_ok_harmless cs mx eb : mx_ok cs mx = true -> forallb (fun b => mem b mx) eb = true -> harmless cs eb.
+Proof.
+  intros H He b Hb. unfold mx_ok in H. rewrite forallb_forall in H, He. specialize (He b Hb). apply mem_In in He.
+  specialize (H b He). apply orb_true_iff in H as [H | H]; [left; apply String.eqb_eq, H | right].
+  apply negb_true_iff, mem_false_In in H. unfold lookup_class.
+  destruct (find (fun c => String.eqb (c_name c) b) cs) as [c|] eqn:E; [| reflexivity].
+  apply find_some in E. destruct E as [Hin Hn]. apply String.eqb_eq in Hn. exfalso. apply H. rewrite <- Hn.
+  apply in_map, Hin.
+Qed.
 
 Definition no_basemodel (cls : list pclass) : bool :=
   forallb (fun c => negb (String.eqb (c_name c) "BaseModel")) cls.
@@ -1013,6 +1076,35 @@ Lemma mro_simple cs n c k :
 Proof.
   intros Hl Hb Hn. cbn [mro_fields]. rewrite (eqb_neq_false _ _ Hn), Hl, Hb. cbn [fold_left].
   rewrite String.eqb_refl. unfold mro_merge. simpl. rewrite app_nil_r. reflexivity.
+Qed.
+
+Lemma mro_empty cs b k : b = "BaseModel" \/ lookup_class cs b = None -> mro_fields (Datatypes.S k) cs b = Some [].
+Proof.
+  intros [E | E]; cbn [mro_fields]; [subst; reflexivity|]. rewrite E. destruct (String.eqb b "BaseModel"); reflexivity.
+Qed.
+
+Lemma mro_harmless cs n c k eb :
+  lookup_class cs n = Some c -> c_bases c = "BaseModel" :: eb -> n <> "BaseModel" -> harmless cs eb ->
+  mro_fields (Datatypes.S (Datatypes.S k)) cs n = Some (c_fields c).
+Proof.
+  intros Hl Hb Hn Hh.
+  assert (E : mro_fields (Datatypes.S (Datatypes.S k)) cs n =
+              if String.eqb n "BaseModel" then Some [] else
+              match lookup_class cs n with
+              | None => Some []
+              | Some c0 => fold_left (fun acc b => match acc, mro_fields (Datatypes.S k) cs b with
+                                                  | Some l, Some bl => Some (mro_merge l bl) | _, _ => None end)
+                                     (c_bases c0) (Some (c_fields c0))
+              end) by reflexivity.
+  rewrite E, (eqb_neq_false _ _ Hn), Hl, Hb. clear E.
+  assert (G : forall l acc, (forall b, In b l -> b = "BaseModel" \/ lookup_class cs b = None) ->
+            fold_left (fun a b => match a, mro_fields (Datatypes.S k) cs b with
+                                  | Some l0, Some bl => Some (mro_merge l0 bl) | _, _ => None end) l (Some acc)
+            = Some acc).
+  { induction l as [|b l IH]; intros acc H; [reflexivity|]. cbn [fold_left].
+    rewrite (mro_empty cs b k (H b (or_introl eq_refl))). unfold mro_merge. simpl filter. rewrite app_nil_r.
+    apply IH. intros b' Hb'. apply H. right; exact Hb'. }
+  apply G. intros b [Eb | Hin]; [left; auto | apply Hh, Hin].
 Qed.
 
 Lemma last_wins_In f l : In f (last_wins l) -> In f l.
